@@ -282,6 +282,18 @@ def check_threshold(case, ctx):
     from astropy.stats import SigmaClip
     from photutils.segmentation import detect_threshold
     data = np.array(case['data'], dtype=float)
+    # the image may be raw integer counts or float32: the threshold is still
+    # background + nsigma * error in floating point (the given background
+    # and error are not cast to the image dtype)
+    ddt = case.get('data_dtype', 'f8')
+    if ddt != 'f8':
+        data = np.round(data) if ddt in ('i4', 'u2') else data
+        data = np.abs(data) if ddt == 'u2' else data
+        data_in = data.astype(ddt)
+        data = data_in.astype(float)
+        ctx.event('data_dtype_' + ddt)
+    else:
+        data_in = data
     nsigma = case['nsigma']
     bkg = case['bkg']
     err = case['err']
@@ -300,7 +312,7 @@ def check_threshold(case, ctx):
         return x if (x is None or unit is None) else x * unit
     with warnings.catch_warnings():
         warnings.simplefilter('ignore')
-        thr = detect_threshold(q(data), nsigma, background=q(b_in),
+        thr = detect_threshold(q(data_in), nsigma, background=q(b_in),
                                error=q(e_in), mask=mask, sigma_clip=sc, **kw)
     if unit is not None:
         require(getattr(thr, 'unit', None) == unit, 'threshold_unit')
@@ -309,7 +321,10 @@ def check_threshold(case, ctx):
     b_ref, e_ref = b_in, e_in
     if bkg is None or err is None:
         ctx.event('estimated')
-        sel = data[~mask] if mask is not None else data.ravel()
+        # clipped in the image's own dtype: with float32 data a value exactly
+        # on a clipping bound (always the case for two pixels and sigma 1)
+        # falls on either side depending on the accumulation precision
+        sel = data_in[~mask] if mask is not None else data_in.ravel()
         with warnings.catch_warnings():
             warnings.simplefilter('ignore')
             clipped = SigmaClip(**sckw)(
@@ -323,8 +338,12 @@ def check_threshold(case, ctx):
     ctx.event('bkg_%s' % ('none' if bkg is None else '2d' if isinstance(bkg, list) else 'scalar'))
     ctx.event('err_%s' % ('none' if err is None else '2d' if isinstance(err, list) else 'scalar'))
     ctx.mark(isinstance(bkg, list) or isinstance(err, list) or mask is not None)
-    if not allclose(thr, ref, rtol=1e-12, atol=1e-12):
-        raise Violation('threshold_value', f'got {thr} expected {ref}')
+    tol = 1e-12
+    if ddt == 'f4' and (bkg is None or err is None):
+        tol = 1e-5      # estimates may be accumulated in float32
+    if not allclose(thr, ref, rtol=tol, atol=tol):
+        raise Violation('threshold_value', f'got {thr} expected {ref} '
+                        f'(data dtype {ddt})')
 
 
 @st.composite
@@ -352,7 +371,8 @@ def threshold_cases(draw):
                                                 {'sigma_lower': 5.0, 'sigma_upper': 1.5},
                                                 {'cenfunc': 'mean'},
                                                 {'stdfunc': 'mad_std'}])),
-            'quantity': draw(st.booleans())}
+            'quantity': draw(st.booleans()),
+            'data_dtype': draw(st.sampled_from(['f8', 'f8', 'f4', 'i4', 'u2']))}
     return case
 
 
